@@ -24,6 +24,26 @@ class StubTree:
         StubTree.built += 1
         self.pts = np.array(points, dtype=object, copy=True)
 
+    @property
+    def data(self):
+        return self.pts
+
+    @property
+    def n(self):
+        return len(self.pts)
+
+    @property
+    def m(self):
+        return self.pts.shape[1]
+
+    @property
+    def maxes(self):
+        return np.max(self.pts, axis=0)        # bounding box (comparisons fork)
+
+    @property
+    def mins(self):
+        return np.min(self.pts, axis=0)
+
     def query_ball_point(self, c, r, p=2.0, **k):
         out = []
         c = np.atleast_1d(np.asarray(c, dtype=object))
@@ -140,6 +160,7 @@ def job_local(ctx: Ctx, kind, n, history):
     ctx.bounds.update(dict(grid=kind, points=n, dim=dim or 1, history=list(history)))
     key = f"{kind}:localgrid:" + "-".join(history)
     newp = sym_points("np", n, dim)
+    shift = real("shift")
     neww = arr([real(f"nw{i}") for i in range(n)])
 
     def replay(m):
@@ -160,6 +181,10 @@ def job_local(ctx: Ctx, kind, n, history):
                             g.points = concrete_grid(kind, m, n, tag="np").points if kind != "AtomGrid" else None
                         elif step == "setw":
                             g.weights = concrete_grid(kind, m, n, wtag="nw").weights
+                        elif step == "mutp":
+                            x = g.points
+                            x += float(m.get("shift", 10.0))
+                            g.points = x
                         elif step == "q":
                             loc = g.get_localgrid(ctr, rad)
                         elif step == "qinf":
@@ -189,6 +214,10 @@ def job_local(ctx: Ctx, kind, n, history):
                 g.points = newp
             elif step == "setw":
                 g.weights = neww
+            elif step == "mutp":            # edit the array obtained from grid.points in place and assign it back
+                x = g.points
+                x += shift
+                g.points = x
             elif step == "q":
                 loc = g.get_localgrid(center, r)
             elif step == "qinf":
@@ -318,7 +347,7 @@ def jobs(tier):
             js.append(Job(f"local/{kind}/qinf", job_local, kind, 2, ("qinf",)))
     hist_kinds = ["Grid2", "OneDGrid", "UniformGrid", "MolGrid"] if tier == "quick" else ["Grid1flat", "Grid2", "Grid3", "OneDGrid", "UniformGrid", "MolGrid", "Tensor1DGrids", "AngularGrid"]
     for kind in hist_kinds:
-        for hist in (("q0", "setp", "q"), ("q0", "setw", "q"), ("q0", "q"), ("setp", "q0", "setw", "q")):
+        for hist in (("q0", "setp", "q"), ("q0", "setw", "q"), ("q0", "q"), ("setp", "q0", "setw", "q"), ("q0", "mutp", "q")):
             js.append(Job(f"local/{kind}/{'-'.join(hist)}", job_local, kind, 2, hist))
     js.append(Job("local/AtomGrid/q0-q", job_local, "AtomGrid", 2, ("q0", "q")))
     for kind in ("Grid2", "OneDGrid", "PeriodicGrid"):
